@@ -150,6 +150,45 @@ func c19Exec(cs fw.Case) *fw.Fail {
 			fw.Tally("option_runs", 1)
 		}
 	}
+	// options must not leave anything behind in the Prog: executing with options and then again
+	// without them gives the option-free output the second time
+	for mask := 1; mask < 8; mask++ {
+		d, t, s := mask&1 != 0, mask&2 != 0, mask&4 != 0
+		var fail *fw.Fail
+		func() {
+			defer func() {
+				if x := recover(); x != nil {
+					fail = fw.Failf("options never make a call panic", "second execution after options panics: %v", x)
+				}
+			}()
+			var out, log bytes.Buffer
+			p, err := bcl.Parse([]byte(src), "input", bcl.OptOutput(&out), bcl.OptLogger(&log))
+			if err != nil {
+				return
+			}
+			bcl.Execute(p, bcl.OptDisasm(d), bcl.OptTrace(t), bcl.OptStats(s))
+			out.Reset()
+			log.Reset()
+			bl, bi, xerr := bcl.Execute(p)
+			again := c19Run{out: out.String(), log: log.String(), blocks: impl.BlocksStr(bl), binding: impl.BindingStr(bi)}
+			if xerr != nil {
+				again.err = xerr.Error()
+			}
+			base := runWith(src, 1, false, false, false)
+			wantLog := ""
+			if i := strings.Index(base.log, "WARNING"); i >= 0 {
+				wantLog = base.log[i:]
+			}
+			if again.out != base.out || again.err != base.err || again.blocks != base.blocks || again.binding != base.binding || again.log != wantLog {
+				fail = fw.Failf(fmt.Sprintf("an option-free execution after one with options (disasm=%v trace=%v stats=%v) behaves like the first: out=%q err=%q", d, t, s, base.out, base.err),
+					"out=%q err=%q log=%q blocks=%s", again.out, again.err, again.log, again.blocks)
+			}
+			fw.Tally("option_runs", 1)
+		}()
+		if fail != nil {
+			return fail
+		}
+	}
 	// structure of the listings, against the independent decoder and the reference VM
 	dp, _, _, status := compileDecode(src)
 	if status == "rejected" {
